@@ -15,7 +15,7 @@ import (
 	"verif/harness/vh"
 )
 
-var addrs = []string{"a.io", "b.io:5000", "https://a.io/", "http://c.io/v1/", "c.io"}
+var addrs = []string{"a.io", "b.io:5000", "https://a.io/", "http://c.io/v1/", "c.io", "https://b.io:5000/v1/", "b.io"}
 
 var creds = []auth.Credential{
 	{Username: "alice", Password: "secret"},
@@ -43,6 +43,8 @@ var initialDocs = []string{
 	`{"auths":{}}`,
 	`{"credsStore":"desktop","experimental":"enabled","auths":{"https://a.io/":{"auth":"bGVnYWN5OnB3","email":"l@a.io"},"b.io:5000":{"username":"olduser","password":"oldpass","identitytoken":"idt"}}}`,
 	`{"auths":{"c.io":{"auth":"dTpw","registrytoken":"rt","unknown":{"k":[1,2]}},"http://c.io/v1/":{"auth":"djE6cHc="}},"HttpHeaders":{"User-Agent":"x"},"psFormat":"table"}`,
+	// a legacy URL key that carries a port: it stands for the registry b.io:5000, not for b.io
+	`{"auths":{"https://b.io:5000/v1/":{"auth":"cG9ydGVkOnB3"},"a.io":{"auth":"dTpw"}}}`,
 }
 
 type credJSON struct {
